@@ -58,12 +58,19 @@ def good_value(node, rnd):
     return rnd.choice(cands)
 
 
-def bad_value(node):
+def bad_value(node, rnd=None):
     if node["enum"]:
-        for c in ("~~", "ZZZ9", "#"):
-            if c not in node["enum"]:
-                return c
-        return None
+        en = list(node["enum"])
+        cands = ["~~", "ZZZ9", "#"]
+        e1 = en[0] if rnd is None else rnd.choice(en)
+        e2 = en[-1] if rnd is None else rnd.choice(en)
+        cands += [e1 + "x", "x" + e1, e1 + e2, e1.swapcase(), e1 + " ", " " + e1, e1 + ",", e1 + "\t" + e2]
+        if node["type"] != "MULTIPLEVALUESTRING":
+            cands += [e1 + " " + e2, e1 + " " + e1]       # space-separated lists are a value of MultipleValueString only
+        cands = [c for c in cands if c not in node["enum"] and c.strip()]
+        if not cands:
+            return None
+        return cands[0] if rnd is None else rnd.choice(cands)
     b = BAD.get(node["type"])
     if b is not None and lexical.zone(node["type"], b) != "reject":
         return None
@@ -131,7 +138,7 @@ def get_level(inst, path):
     return lvl
 
 
-def fault_positions(dic, msgdef, inst):
+def fault_positions(dic, msgdef, inst, rnd=None):
     """all applicable single faults: list of (class, depth, path, index, extra)"""
     alltags = dictref.all_tags(msgdef["members"])
     foreign = None
@@ -151,7 +158,7 @@ def fault_positions(dic, msgdef, inst):
             if node["kind"] == "field":
                 if node["strict"] and not is_first_of_item:
                     out.append(("missing-required-field" if not path else "missing-required-member-in-item", d, path, idx, None))
-                b = bad_value(node)
+                b = bad_value(node, rnd)
                 if b is not None:
                     out.append(("bad-value" if not node["enum"] else "value-outside-enumeration", d, path, idx, b))
                 if not is_first_of_item or len(lvl) > 1:
@@ -256,7 +263,7 @@ def judge_instance(acc, dname, dic, schema, mt, msgdef, inst, label, cid, npos, 
                 why = f"{type(e).__name__}: {e}"[:300]
             acc.violation(key, f"{dname} {msgdef['name']} ({label}, header={header}): {why}", {"dict": dname, "msgtype": mt, "instance": show_inst(inst)}, cid)
             return
-    faults = fault_positions(dic, msgdef, inst)
+    faults = fault_positions(dic, msgdef, inst, rnd)
     for f in pick_positions(faults, npos, rnd):
         acc.oracle("fault-rejected")
         acc.addmap("faults_by_class", f[0])
@@ -320,7 +327,7 @@ def run_shard(spec, acc):
                 judge_instance(acc, dn, dic, schema, mt, msgdef, inst, f"density {density:.2f}", cid, spec["npos"], rnd)
                 if i == 1 and len(battery) < 400:
                     battery.append((mt, inst))
-                    faults = fault_positions(dic, msgdef, inst)
+                    faults = fault_positions(dic, msgdef, inst, rnd)
                     for f in pick_positions(faults, 1, rnd)[:6]:
                         battery.append((mt, apply_fault(inst, f)))
                 if k % 173 == 0:
